@@ -8,7 +8,7 @@ from __future__ import annotations
 
 import numpy as np
 
-from pv import envrun
+from pv import probes, envrun
 from pv.harness import Cov, digest, viol
 from pv.models.dryrun import dry_run
 
@@ -89,6 +89,13 @@ class MaskMonitor:
         # only judge when the dry-run verdict recomputed now-independent clauses hold: masked-out + success is always wrong
         if not m and status == "success" and self.alone:
             self.v(f"masked-out-action-succeeded/{aname}", f"{aname} {opts}: mask 0 but response success")
+        refusers = self.tracer.refused.pop(repr(list(req)), None) if getattr(self, "tracer", None) else None
+        if getattr(self, "tracer", None):
+            self.tracer.refused.clear()
+        if m and self.alone and refusers:
+            self.cov.inc("allowed_but_refused_at_execution")
+            self.v(f"mask-allows-but-refused-at-execution/{refusers[0]}/{aname}", f"{aname} {opts}: mask 1 on the pre-step state, but while executing {req} the permission "
+                   f"rule(s) {refusers} answered False (response {status}: {item.response.data})")
         if m and self.alone and dr["why"] == "handler" and status == "unreachable":
             self.v(f"allowed-action-unreachable/{aname}", f"{aname} {opts}: mask 1, dry-run reaches handler, response unreachable {item.response.data}")
 
@@ -101,6 +108,44 @@ class MaskMonitor:
         names = list(env.game.agents)
         self.alone = bool(names) and names[0] == env._agent_name
         self.trail.append(("reset", ep))
+
+
+class RefusalTracer:
+    """execution-time witness, independent of the tree shape the mask walks: every permission rule (RequestPermissionValidator
+    subclass) that answers False while Simulation.apply_request is dispatching a request is recorded against that request."""
+
+    def __init__(self, cov):
+        self.cov = cov
+        self.stack = []
+        self.refused = {}  # repr(request) -> [validator class names]
+
+    def install(self):
+        from primaite.simulator.core import RequestPermissionValidator
+        from primaite.simulator.sim_container import Simulation
+
+        tr = self
+
+        def subs(c):
+            for x in c.__subclasses__():
+                yield x
+                yield from subs(x)
+
+        def post_val(v, tok, res, exc, *a, **k):
+            if tr.stack and res is False and type(v).__name__ != "_CombinedValidator":
+                tr.refused.setdefault(tr.stack[0], []).append(type(v).__name__)
+                tr.cov.inc("validator_refusals_seen_during_execution")
+
+        for c in set(subs(RequestPermissionValidator)):
+            if "__call__" in c.__dict__:
+                probes.wrap(c, "__call__", post=post_val, tapname=f"validator:{c.__name__}")
+
+        def pre_apply(sim, request, *a, **k):
+            tr.stack.append(repr(list(request)))
+
+        def post_apply(sim, tok, res, exc, request, *a, **k):
+            tr.stack.pop()
+
+        probes.wrap(Simulation, "apply_request", pre=pre_apply, post=post_apply)
 
 
 class Check:
@@ -140,7 +185,15 @@ class Check:
                 if a.get("type") == "proxy-agent":
                     a.setdefault("agent_settings", {})["action_masking"] = True
         mon = MaskMonitor(cov, out, {"scenario": spec["src"], "policy": spec["policy"], "seed": spec["seed"]})
-        st = envrun.run_env(cfg, meta, [mon], spec["episodes"], spec["steps"], spec["policy"], spec["seed"], max_len=spec.get("max_len"))
+        import primaite.game.game  # noqa: F401  (every validator class is defined once the game module tree is imported)
+
+        probes.uninstall_all()
+        mon.tracer = RefusalTracer(cov)
+        mon.tracer.install()
+        try:
+            st = envrun.run_env(cfg, meta, [mon], spec["episodes"], spec["steps"], spec["policy"], spec["seed"], max_len=spec.get("max_len"))
+        finally:
+            probes.uninstall_all()
         cells = cov.d.get("cells", {})
         nonon = any(("SHUTTING_DOWN" in c or "BOOTING" in c or "|OFF" in c) for c in cells)
         return {"violations": out, "cov": cov.d, "nontrivial": len(cells) >= 10 and nonon, "digest": digest([spec["src"], spec["policy"], spec["seed"]]),
